@@ -50,7 +50,7 @@ func init() {
 			scoped(ruleBoundScoped, fnIn("Client.Start")), ruleOrderStart,
 		},
 		Technique:   "path-sensitive abstract interpretation over go/cfg (error nil-ness, len lower bounds, non-nil facts), dominance queries for validation gates, writer/reader table extraction",
-		Explanation: "Decides on every path of Client.Start and its helpers: every error produced while parsing the handshake line is read and, if non-nil, returned before the address is committed (R-ERR L1/L2); every constant index into the split line is within the established length (R-IDX); no optional config pointer is dereferenced unguarded (R-NILGUARD); the success commit is dominated by the core-version, app-version, address, protocol, certificate and multiplexing gates (R-GATE); the protocol/version/address reported are the line's fields (R-TABLE/handshake); the wait has a StartTimeout arm and an exit arm (R-BOUND); kill-on-error defer reads the named result (R-ORDER/O3).",
+		Explanation: "Decides on every path of Client.Start and its helpers: every error produced while parsing the handshake line is read and, if non-nil, returned before the address is committed (R-ERR L1/L2); every constant index into the split line is within the established length (R-IDX); no optional config pointer is dereferenced unguarded (R-NILGUARD); the success commit is dominated by the core-version, app-version, address, protocol, certificate and multiplexing gates (R-GATE); the protocol/version/address reported are the line's fields (R-TABLE/handshake); the wait has a StartTimeout arm and an exit arm (R-BOUND); kill-on-error defer reads the named result (R-ORDER/O3). No nil-able result is dereferenced before the error returned with it was tested, anywhere in scope (R-ERR/L3); the stdout scanner hands every scanned line, unmodified, to the parser (R-DRAIN/lines).",
 		NotDecided:  "what strconv.Atoi, ParseBool, net.Resolve*Addr and x509.ParseCertificate accept (library contracts); that the returned address is dialable.",
 		Assume:      []string{"net.ResolveTCPAddr/ResolveUnixAddr return a non-nil address iff the error is nil", "strings.Split with a non-empty separator returns at least one element"},
 	})
@@ -59,17 +59,17 @@ func init() {
 			return o.Rule == "R-ORDER/O5" || (o.Rule == "R-TABLE/env" && strings.Contains(o.Construct, "PLUGIN_PROTOCOL_VERSIONS"))
 		})},
 		Technique:   "typestate (sorted-descending) and loop-shape analysis of the negotiation function; map-key/value pairing by object identity; table agreement offered=accepted",
-		Explanation: "Decides for the algorithm in the tree: the list ranged by the outer loop that contains the match return is sorted descending at the loop head; the match is an == between the two loop variables; the returned version, plugin set and protocol are those of the matched key; the fallback return is reachable only after the loop (lowest); legacy fields are folded into the map before it is ranged on both sides; the client accepts only a key of the map it offered and stores the set of the same key; the offered list is exactly the map's keys.",
+		Explanation: "Decides for the algorithm in the tree: the list ranged by the outer loop that contains the match return is sorted descending at the loop head; the match is an == between the two loop variables; the returned version, plugin set and protocol are those of the matched key; the fallback return is reachable only after the loop (lowest); legacy fields are folded into the map before it is ranged on both sides; the client accepts only a key of the map it offered and stores the set of the same key; the offered list is exactly the map's keys. An element of the offered list that does not parse is skipped and never ends the parse loop; the offered-version variable is written after the inherited host environment so that the client's value wins (R-ORDER/O5).",
 		NotDecided:  "the arithmetic fact that the first match in a descending list is the maximum of the intersection (taken as the algorithm's contract); a different negotiation algorithm is reported as undecided rather than verified.",
 		Assume:      []string{"sort.Sort(sort.Reverse(sort.IntSlice(x))) leaves x in descending order"},
 	})
 	register(&propDef{ID: "C03",
-		Rules: []func(*Ctx){ruleErrL3, ruleClientCache, ruleStreamClose,
+		Rules: []func(*Ctx){ruleOrderO4, ruleErrL3, ruleClientCache, ruleStreamClose,
 			ruleExit, ruleCtx, ruleBound, ruleWG,
 			scoped(ruleErrL1Scoped, connectPath), scoped(ruleErrL2Scoped, connectPath),
 		},
 		Technique:   "CFG must-pass-through (exit bookkeeping after Wait), context-origin resolution, blocking-operation classification with reviewed table, WaitGroup pairing, error-path interpretation on the connect/dispense paths",
-		Explanation: "Decides: both goroutines that wait on the plugin cancel the context stored in Client.doneCtx and set Client.exited under the lock on every path after Wait (R-EXIT); the context handed to GRPCPlugin.GRPCClient and the stdio stream originates from Client.doneCtx (R-CTX); every blocking operation in the module is non-blocking, timer-bounded, cancellable or a reviewed bare wait, and the start/kill/broker waits have constant or configured timers (R-BOUND); WaitGroup Add/Done/Wait are paired (R-WG); errors on the connect and dispense paths are returned (R-ERR).",
+		Explanation: "Decides: both goroutines that wait on the plugin cancel the context stored in Client.doneCtx and set Client.exited under the lock on every path after Wait (R-EXIT); the context handed to GRPCPlugin.GRPCClient and the stdio stream originates from Client.doneCtx (R-CTX); every blocking operation in the module is non-blocking, timer-bounded, cancellable or a reviewed bare wait, and the start/kill/broker waits have constant or configured timers (R-BOUND); WaitGroup Add/Done/Wait are paired (R-WG); errors on the connect and dispense paths are returned (R-ERR). No result is dereferenced before its error was tested (R-ERR/L3); the stdout drain is registered before any return of Start (R-ORDER/O4).",
 		NotDecided:  "that net/rpc, yamux and grpc-go fail in-flight calls when the peer dies (library behaviour); crash-point timing; host panics outside the listed constructs.",
 		Assume:      []string{"yamux with default config (keep-alive on) fails a session whose peer is gone", "grpc-go fails RPCs on a closed connection"},
 	})
@@ -79,7 +79,7 @@ func init() {
 			guardOn("Client.", "managedClients", "RPCServer.DoneCh", "GRPCServer.broker"), ruleClose1,
 		},
 		Technique:   "CFG path enumeration of Client.Kill (kill-or-exited on every exit), context-origin resolution for the shutdown RPC, sibling cross-check of ClientProtocol.Close, lockset, close-once classification",
-		Explanation: "Decides: every exit of Kill other than the no-runner early return and the arm that observed the exit context passes runner.Kill on the runner read under the lock; the grace wait is a short constant timer with an exit arm; the shutdown RPC carries a deadline (R-BOUND/rpc); both Close implementations send their protocol's shutdown request first and return its error / close the connection (R-SIB); Kill's deferred function waits for the management goroutines and CleanupClients adds/waits per client (R-WG); repeated or concurrent Kill touches shared fields only under the lock (R-GUARD) and closes no channel twice (R-CLOSE1).",
+		Explanation: "Decides: every exit of Kill other than the no-runner early return and the arm that observed the exit context passes runner.Kill on the runner read under the lock; the grace wait is a short constant timer with an exit arm; the shutdown RPC carries a deadline (R-BOUND/rpc); both Close implementations send their protocol's shutdown request first and return its error / close the connection (R-SIB); Kill's deferred function waits for the management goroutines and CleanupClients adds/waits per client (R-WG); repeated or concurrent Kill touches shared fields only under the lock (R-GUARD) and closes no channel twice (R-CLOSE1). The runner Kill implementations signal the process on every path with a non-nil process (R-SIB/runnerkill); the net/rpc Quit handler does not end the server before its reply is written, and the control-connection server ends it afterwards iff Quit was requested.",
 		NotDecided:  "that the OS reaps the process; SIGSTOP behaviour; real latencies.",
 		Assume:      []string{"context.WithTimeout bounds a unary gRPC call", "os.Process.Kill delivers SIGKILL"},
 	})
@@ -97,7 +97,7 @@ func init() {
 			ruleIDMux, ruleSlot, guardOn("MuxBroker."), scoped(ruleBoundScoped, fnIn("MuxBroker.Accept", "MuxBroker.timeoutWait", "MuxBroker.Run", "MuxBroker.Dial")), ruleAtomicIDs,
 		},
 		Technique:   "origin (def-use) resolution of the brokered id on both ends, channel-capacity check, lockset on the pending map, timer-arm classification",
-		Explanation: "Decides the id-keyed hand-off structure: Dial writes its id parameter to the wire and fails unless the echoed ack equals it; Run files each inbound stream under the id read from that stream; Accept takes from the slot of its id parameter and echoes the same id; Dispense hands the same id to the response and to Accept, and the client dials the id it received (R-ID); the slot channel has capacity >= 1 so parking never blocks (R-SLOT); the id map is touched only under the broker mutex (R-GUARD); accept and expiry have 5 s timers (R-BOUND); NextId is an atomic add with no other writer.",
+		Explanation: "Decides the id-keyed hand-off structure: Dial writes its id parameter to the wire and fails unless the echoed ack equals it; Run files each inbound stream under the id read from that stream; Accept takes from the slot of its id parameter and echoes the same id; Dispense hands the same id to the response and to Accept, and the client dials the id it received (R-ID); the slot channel has capacity >= 1 so parking never blocks (R-SLOT); the id map is touched only under the broker mutex (R-GUARD); accept and expiry have 5 s timers (R-BOUND); NextId is an atomic add with no other writer. No absolute I/O deadline stays armed on a connection that outlives the function (R-DEADLINE).",
 		NotDecided:  "routing under all interleavings and byte integrity/order of yamux streams (schedule and library properties with no static bound in reach).",
 		Assume:      []string{"yamux delivers each stream's bytes in order to its peer only"},
 	})
@@ -108,15 +108,15 @@ func init() {
 			ruleTLSUse, ruleAtomicIDs,
 		},
 		Technique:   "origin resolution of ConnInfo.ServiceId on both ends, channel-capacity check, lockset, error-path interpretation, TLS option provenance",
-		Explanation: "Decides: Accept advertises its id parameter with the address of the listener it just opened; Run files each message under msg.ServiceId; Dial waits on the slot of its id parameter and dials the address in that message, returning translation/resolve errors (R-ID, R-ERR); slots are buffered (R-SLOT); both pending maps are touched only under the broker mutex (R-GUARD); the dial wait and the expiry have 5 s timers (R-BOUND); brokered servers and dials use the broker's TLS config (R-TLS/use).",
+		Explanation: "Decides: Accept advertises its id parameter with the address of the listener it just opened; Run files each message under msg.ServiceId; Dial waits on the slot of its id parameter and dials the address in that message, returning translation/resolve errors (R-ID, R-ERR); slots are buffered (R-SLOT); both pending maps are touched only under the broker mutex (R-GUARD); the dial wait and the expiry have 5 s timers (R-BOUND); brokered servers and dials use the broker's TLS config (R-TLS/use). No absolute I/O deadline stays armed on a connection that outlives the function (R-DEADLINE); accept-side code touches only the accept-side pending table and dial-side code only the dial-side one (R-ID/role).",
 		NotDecided:  "routing under all interleavings; that grpc-go connects to the address it was given.",
 	})
 	register(&propDef{ID: "C08",
-		Rules: []func(*Ctx){ruleIDRoles, ruleDeadline, ruleLockPair, ruleGetOrCreate,
+		Rules: []func(*Ctx){ruleMuxOnlyGRPC, ruleIDRoles, ruleDeadline, ruleLockPair, ruleGetOrCreate,
 			ruleOrderO8, ruleMuxSer, ruleSlot, ruleIDKnock, guardOn("grpcmux.", "GRPCBroker.serverStreams", "GRPCBroker.clientStreams"),
 		},
 		Technique:   "dominance query (listener registration before knock goroutine), must-held lockset for the serialised dial, channel-capacity check, id origin resolution",
-		Explanation: "Decides: in the multiplexed Accept the listener for the id is registered with the muxer before the goroutine that answers knocks starts (O8, the dial-first failure); the knock and the stream dial both run with dialMutex held (R-MUXSER); the server muxer reads the knocked id only after session.Accept returned and routes un-knocked streams to the default listener; knockCh and waitCh are buffered (R-SLOT); knock and ack compare msg.ServiceId with the id (R-ID); the listener maps are touched only under acceptMutex (R-GUARD).",
+		Explanation: "Decides: in the multiplexed Accept the listener for the id is registered with the muxer before the goroutine that answers knocks starts (O8, the dial-first failure); the knock and the stream dial both run with dialMutex held (R-MUXSER); the server muxer reads the knocked id only after session.Accept returned and routes un-knocked streams to the default listener; knockCh and waitCh are buffered (R-SLOT); knock and ack compare msg.ServiceId with the id (R-ID); the listener maps are touched only under acceptMutex (R-GUARD). Accept-side and dial-side pending tables are never mixed (R-ID/role); the hand-off of a knocked stream is a send that cannot give up; the server muxer wraps the listener only on the gRPC arm; no deadline stays armed (R-DEADLINE).",
 		NotDecided:  "the four-goroutine hand-off under all schedules; behaviour when brokered connections are not established sequentially (excluded by the API contract).",
 	})
 	register(&propDef{ID: "C09",
@@ -131,71 +131,71 @@ func init() {
 	register(&propDef{ID: "C10",
 		Rules:       []func(*Ctx){ruleStdioSequential, ruleStdoutLines, ruleStderrNewline, rulePanicFlag, ruleAssert, ruleDrain, ruleOrderO4, ruleLogLevels, onlyObligations(ruleWG, func(o *Obligation) bool { return strings.Contains(o.Construct, "pipe") })},
 		Technique:   "call-graph reachability from the reader goroutines + type-assertion form check; loop-exit analysis against a reader effect table; case-to-method table agreement",
-		Explanation: "Decides: no single-result type assertion is reachable from the stdout/stderr reader goroutines (R-ASSERT); the stderr loop ends only on a non-nil read error and every successfully read chunk passes config.Stderr.Write(line) before the next read; the stdout scanner's early stop (ErrTooLong) is followed by a drain of the same reader (R-DRAIN); the drain goroutine for the line channel is registered right after its producer (O4); each [LEVEL] prefix and hclog level is logged with the method of the same name, panic: with Error, default Debug or Error inside a panic trace (R-TABLE/levels).",
+		Explanation: "Decides: no single-result type assertion is reachable from the stdout/stderr reader goroutines (R-ASSERT); the stderr loop ends only on a non-nil read error and every successfully read chunk passes config.Stderr.Write(line) before the next read; the stdout scanner's early stop (ErrTooLong) is followed by a drain of the same reader (R-DRAIN); the drain goroutine for the line channel is registered right after its producer (O4); each [LEVEL] prefix and hclog level is logged with the method of the same name, panic: with Error, default Debug or Error inside a panic trace (R-TABLE/levels). Every scanned stdout line is handed on (R-DRAIN/lines); the goroutines reading the two pipes are counted in the WaitGroup the reaper waits for before runner.Wait (R-WG); chunks are forwarded by the loop that received them (R-ORDER/stdio).",
 		NotDecided:  "newline/continuation reconstruction for every buffer size (value-level); hclog's own formatting.",
 		Assume:      []string{"bufio.Reader.ReadLine returns a non-nil error only at EOF or read failure", "bufio.Scanner stops with ErrTooLong at a 64 KiB token"},
 	})
 	register(&propDef{ID: "C11",
 		Rules:       []func(*Ctx){ruleStdioSequential, ruleDeadline, ruleCtx, ruleStdioWiring, ruleFresh, ruleCopyChan},
 		Technique:   "label propagation (stdout/stderr) over resolved fields, parameters and constants; allocation-site-in-loop check; statement ordering in the chunk loop",
-		Explanation: "Decides the wiring and aliasing conditions: every edge of the stdio path joins equal labels (os.Pipe pair -> os.Stdout/os.Stderr and the server's Stdout/Stderr fields -> stdoutCh/stderrCh -> STDOUT/STDERR tags -> host stdout/stderr writers <- SyncStdout/SyncStderr; net/rpc stream 0/1 on both ends) (R-TABLE/stdio); the chunk sent on the channel is backed by an array declared inside the loop body, so a later read cannot overwrite bytes in flight (R-FRESH); data[:n] is sent before the error of the same read is acted on and the hand-off is an unconditional blocking send (O10).",
+		Explanation: "Decides the wiring and aliasing conditions: every edge of the stdio path joins equal labels (os.Pipe pair -> os.Stdout/os.Stderr and the server's Stdout/Stderr fields -> stdoutCh/stderrCh -> STDOUT/STDERR tags -> host stdout/stderr writers <- SyncStdout/SyncStderr; net/rpc stream 0/1 on both ends) (R-TABLE/stdio); the chunk sent on the channel is backed by an array declared inside the loop body, so a later read cannot overwrite bytes in flight (R-FRESH); data[:n] is sent before the error of the same read is acted on and the hand-off is an unconditional blocking send (O10). Every loop of the stdio path forwards the chunk it received itself (no goroutine per chunk: R-ORDER/stdio); no absolute deadline stays armed on the stdio streams (R-DEADLINE).",
 		NotDecided:  "byte-exactness and ordering themselves (gRPC stream, yamux and io.Copy contracts); data written before the host attaches.",
 	})
 	register(&propDef{ID: "C12",
 		Rules:       []func(*Ctx){ruleCtorStoresTLS, ruleTLSConfig, ruleTLSPools, ruleTLSUse, ruleCertGen, ruleAutoMTLSGate, ruleEnvCertOnly, scoped(ruleErrL2Scoped, fnIn("Client.Start", "Client.loadServerCert")), scoped(ruleErrL1Scoped, fnIn("Client.loadServerCert"))},
 		Technique:   "composite-literal and field-store audit of every tls.Config in scope; origin resolution of certificate pools; provenance of TLS options at every listener/dial constructor call site",
-		Explanation: "Decides what go-plugin itself contributes to mutual authentication: both tls.Config literals require and verify client certificates, set MinVersion >= TLS 1.2, carry the freshly generated pair and no verification bypass, and no store weakens them (R-TLS/config); RootCAs and ClientCAs are, on both sides, a fresh pool that received exactly the peer's handshake certificate (R-TLS/pools); every gRPC server factory call, dialGRPCConn call and broker construction passes the owner's TLS config, the insecure dial option is dominated by tls == nil, and the net/rpc listener/conn are wrapped under a non-nil config (R-TLS/use); the two certificates travel in PLUGIN_CLIENT_CERT and handshake field 6; a certificate that cannot be parsed or pinned fails the start (R-ERR on Start/loadServerCert). The credential generator draws key and certificate from crypto/rand.Reader, self-signs with the generated key over its public half, and returns that same key (R-TLS/certgen).",
+		Explanation: "Decides what go-plugin itself contributes to mutual authentication: both tls.Config literals require and verify client certificates, set MinVersion >= TLS 1.2, carry the freshly generated pair and no verification bypass, and no store weakens them (R-TLS/config); RootCAs and ClientCAs are, on both sides, a fresh pool that received exactly the peer's handshake certificate (R-TLS/pools); every gRPC server factory call, dialGRPCConn call and broker construction passes the owner's TLS config, the insecure dial option is dominated by tls == nil, and the net/rpc listener/conn are wrapped under a non-nil config (R-TLS/use); the two certificates travel in PLUGIN_CLIENT_CERT and handshake field 6; a certificate that cannot be parsed or pinned fails the start (R-ERR on Start/loadServerCert). The credential generator draws key and certificate from crypto/rand.Reader, self-signs with the generated key over its public half, and returns that same key (R-TLS/certgen). The server builds the mutual-TLS configuration on every path on which a client certificate is present and no provider configuration exists, and the only stores to ClientConfig.TLSConfig assign the audited literal (R-TLS/automtls).",
 		NotDecided:  "that crypto/tls enforces what is configured.",
 		Assume:      []string{"crypto/tls with ClientAuth=RequireAndVerifyClientCert and a single-certificate pool accepts only that certificate's key"},
 	})
 	register(&propDef{ID: "C13",
 		Rules:       []func(*Ctx){ruleCmdPathImmutable, ruleSecureOrder, ruleCmp, ruleSentinelSecure, scoped(ruleErrL1Scoped, fnIn("SecureConfig.Check")), scoped(ruleErrL2Scoped, fnIn("SecureConfig.Check"))},
 		Technique:   "dominance of every launch site by the checksum gate; origin resolution of the compared operands; sentinel-return check",
-		Explanation: "Decides: SecureConfig.Check(cmd.Path) with both results tested dominates every launch site in Start (O1, G-sum); the boolean returned by Check is subtle.ConstantTimeCompare (or bytes.Equal) of the un-sliced Hash.Sum(nil) after io.Copy(Hash, file) of the file opened from the path parameter against the un-sliced Checksum (R-CMP); the empty-checksum and nil-hash guards return their sentinels before the file is opened, a mismatch returns ErrChecksumsDoNotMatch (R-SENT).",
+		Explanation: "Decides: SecureConfig.Check(cmd.Path) with both results tested dominates every launch site in Start (O1, G-sum); the boolean returned by Check is subtle.ConstantTimeCompare (or bytes.Equal) of the un-sliced Hash.Sum(nil) after io.Copy(Hash, file) of the file opened from the path parameter against the un-sliced Checksum (R-CMP); the empty-checksum and nil-hash guards return their sentinels before the file is opened, a mismatch returns ErrChecksumsDoNotMatch (R-SENT). Nothing in the module assigns exec.Cmd.Path or Args, so the hashed file is the executed file.",
 		NotDecided:  "hash function behaviour; replacement of the file between check and exec (documented upstream).",
 		Assume:      []string{"subtle.ConstantTimeCompare returns 1 iff the slices have equal length and contents"},
 	})
 	register(&propDef{ID: "C14",
-		Rules:       []func(*Ctx){ruleCtorStoresTLS, ruleGateExcl, ruleGateProtoMux, ruleSibDispense, ruleSibSwitch, ruleOrderStart, ruleTLSUse},
+		Rules:       []func(*Ctx){ruleMuxOnlyGRPC, ruleCtorStoresTLS, ruleGateExcl, ruleGateProtoMux, ruleSibDispense, ruleSibSwitch, ruleOrderStart, ruleTLSUse},
 		Technique:   "dominance queries for configuration gates, sibling cross-check of Dispense implementations and protocol switches, TLS option provenance",
-		Explanation: "Decides: the exclusivity checks (exactly one of Cmd/Reattach/RunnerFunc; SecureConfig or multiplexing with Reattach) return errors before any launch site (G-excl); the announced protocol must be in AllowedProtocols and the multiplexing field must be present and true when requested, failing with an error that is or wraps ErrGRPCBrokerMuxNotSupported (G-proto, G-mux); all three Dispense implementations return a non-nil error on a map miss; Client() and Serve switch over both protocols with an error/panic default; NewClient defaults AllowedProtocols to exactly net/rpc (R-SIB); refused configurations terminate the plugin (O3); plaintext is used only when no TLS config exists (R-TLS/use).",
+		Explanation: "Decides: the exclusivity checks (exactly one of Cmd/Reattach/RunnerFunc; SecureConfig or multiplexing with Reattach) return errors before any launch site (G-excl); the announced protocol must be in AllowedProtocols and the multiplexing field must be present and true when requested, failing with an error that is or wraps ErrGRPCBrokerMuxNotSupported (G-proto, G-mux); all three Dispense implementations return a non-nil error on a map miss; Client() and Serve switch over both protocols with an error/panic default; NewClient defaults AllowedProtocols to exactly net/rpc (R-SIB); refused configurations terminate the plugin (O3); plaintext is used only when no TLS config exists (R-TLS/use). The yamux server muxer wraps the listener only on the gRPC arm of the protocol switch.",
 		NotDecided:  "the end-to-end behaviour of each cell of the configuration matrix.",
 	})
 	register(&propDef{ID: "C15",
 		Rules:       []func(*Ctx){ruleRunnerKill, ruleReattach, ruleSentinelReattach, ruleExit, ruleGateExcl},
 		Technique:   "dominance (runner recorded only outside test mode), field-provenance of address/protocol, sentinel-return check, exit bookkeeping",
-		Explanation: "Decides: in reattach the store to Client.runner is dominated by the false edge of Reattach.Test; address and protocol come from the ReattachConfig with net/rpc as default; Client.ReattachConfig() and the test-mode literal in Serve fill Protocol, Addr, Pid, Test from the negotiated protocol, the listener address, the pid and true; both failure paths of the reattach probe return ErrProcessNotFound; the reattach goroutine cancels the context and marks exit.",
+		Explanation: "Decides: in reattach the store to Client.runner is dominated by the false edge of Reattach.Test; address and protocol come from the ReattachConfig with net/rpc as default; Client.ReattachConfig() and the test-mode literal in Serve fill Protocol, Addr, Pid, Test from the negotiated protocol, the listener address, the pid and true; both failure paths of the reattach probe return ErrProcessNotFound; the reattach goroutine cancels the context and marks exit. Both runner Kill implementations call os.Process.Kill on every path with a process (R-SIB/runnerkill).",
 		NotDecided:  "that the address reaches the same plugin instance (a run-time value).",
 	})
 	register(&propDef{ID: "C16",
 		Rules:       []func(*Ctx){ruleServeServes, ruleCookie, ruleOrderServe, ruleHandshakeTable, ruleStdout},
 		Technique:   "dominance of listener/print sites by the cookie gate, statement ordering in Serve, format-string/argument table extraction, who-may-write audit of os.Stdout",
-		Explanation: "Decides: the empty key/value test and the exact != comparison of os.Getenv(key) with the value set exit code 1 and return before any listen or print site, and the deferred os.Exit reads that variable (G-cookie); the listener and server.Init precede the handshake print, print and Sync precede the os.Stdout swap (O6); the line is Sprintf(\"%d|%d|%s|%s|%s|%s\") of core version, negotiated version, listener network/address, protocol and certificate, with a seventh field only under os.Getenv(PLUGIN_MULTIPLEX_GRPC) != \"\" (R-TABLE/handshake); the only write to the real stdout in scope is that print (R-STDOUT).",
+		Explanation: "Decides: the empty key/value test and the exact != comparison of os.Getenv(key) with the value set exit code 1 and return before any listen or print site, and the deferred os.Exit reads that variable (G-cookie); the listener and server.Init precede the handshake print, print and Sync precede the os.Stdout swap (O6); the line is Sprintf(\"%d|%d|%s|%s|%s|%s\") of core version, negotiated version, listener network/address, protocol and certificate, with a seventh field only under os.Getenv(PLUGIN_MULTIPLEX_GRPC) != \"\" (R-TABLE/handshake); the only write to the real stdout in scope is that print (R-STDOUT). Both ServerProtocol.Serve implementations reach the accept loop on the announced listener on every path (nothing fallible between the print and accepting).",
 		NotDecided:  "the exit status as observed by the OS; that a listening socket queues connections before Accept (kernel contract).",
 	})
 	register(&propDef{ID: "C17",
 		Rules:       []func(*Ctx){ruleEnv},
 		Technique:   "extraction of every element reaching exec.Cmd.Env with its dominating configuration conditions, compared with the reference table and with every os.Getenv reachable from Serve",
-		Explanation: "Decides the whole structural content of the property: each control variable is appended under exactly its configuration condition, the host environment exactly when SkipHostEnv is false and before every control variable, stdin unconditionally, the offered versions are the keys of the map the acceptance check ranges; every variable the server reads is one the client writes; conditional 'exactly when' variables are filtered out of the inherited environment.",
+		Explanation: "Decides the whole structural content of the property: each control variable is appended under exactly its configuration condition, the host environment exactly when SkipHostEnv is false and before every control variable, stdin unconditionally, the offered versions are the keys of the map the acceptance check ranges; every variable the server reads is one the client writes; conditional 'exactly when' variables are filtered out of the inherited environment. A control variable's conditions beyond the gates common to all of them are exactly its feature condition.",
 		NotDecided:  "exec.Cmd's duplicate-key resolution (later entries win).",
 		Assume:      []string{"exec.Cmd de-duplicates Env keeping the last value"},
 	})
 	register(&propDef{ID: "C18",
-		Rules:       []func(*Ctx){ruleWrapClose, ruleRes, ruleSocketDir, ruleStopClosesBroker, ruleWG, ruleBound},
+		Rules:       []func(*Ctx){onlyObligations(ruleSibClose, func(o *Obligation) bool { return strings.HasPrefix(o.Construct, "closes the") }), ruleWrapClose, ruleRes, ruleSocketDir, ruleStopClosesBroker, ruleWG, ruleBound},
 		Technique:   "wrapper-closes-wrapped audit of every net.Listener implementation, resource typestate (listener closed on every return), Kill path enumeration",
-		Explanation: "Decides: every module type that implements net.Listener and is built from a listener retains it and closes it on every path through Close; rmListener also runs its extra close function and the file listener removes the path it listens on (R-WRAPCLOSE); Serve and AcceptAndServe close their listener on every return after creation (R-RES, O7); Kill removes the socket directory on every non-early exit (R-RES/socketdir); Stop/GracefulStop close the broker; Kill waits for the management goroutines (R-WG); of the goroutine clause the necessary condition that no go-plugin goroutine can park forever: every blocking operation is non-blocking, timer-bounded, cancellation-terminated or in the reviewed table with its wake-up argument (R-BOUND).",
+		Explanation: "Decides: every module type that implements net.Listener and is built from a listener retains it and closes it on every path through Close; rmListener also runs its extra close function and the file listener removes the path it listens on (R-WRAPCLOSE); Serve and AcceptAndServe close their listener on every return after creation (R-RES, O7); Kill removes the socket directory on every non-early exit (R-RES/socketdir); Stop/GracefulStop close the broker; Kill waits for the management goroutines (R-WG); of the goroutine clause the necessary condition that no go-plugin goroutine can park forever: every blocking operation is non-blocking, timer-bounded, cancellation-terminated or in the reviewed table with its wake-up argument (R-BOUND). Both ClientProtocol.Close implementations close connection and broker on every path on which no close step failed (R-SIB/close).",
 		NotDecided:  "the rest of the goroutine clause: that each loop actually exits within seconds of Kill is a liveness property over runtime events; R-BOUND only excludes operations that can wait forever.",
 	})
 	register(&propDef{ID: "C19",
 		Rules:       []func(*Ctx){ruleOnce, guardOn("Client.")},
 		Technique:   "typestate of the launch region (once-flag tested before, stored before, never reset) via dominance queries; cache-structure check of Client(); lockset on Client fields",
-		Explanation: "Decides: all launch sites in Start are reachable only when a Client once-flag was observed unset, the flag is stored on every path before the first launch site and never reset anywhere in the module; Client() creates a protocol client only when none is cached, returns the cached one otherwise and clears the cache on failure; all of this runs under the client lock (R-GUARD).",
+		Explanation: "Decides: all launch sites in Start are reachable only when a Client once-flag was observed unset, the flag is stored on every path before the first launch site and never reset anywhere in the module; Client() creates a protocol client only when none is cached, returns the cached one otherwise and clears the cache on failure; all of this runs under the client lock (R-GUARD). Every field whose set value short-circuits Start (address, launched) is never reset anywhere.",
 		NotDecided:  "pointer equality of returned values across calls (follows from the cache structure but is a run-time fact).",
 	})
 	register(&propDef{ID: "C20",
 		Rules:       []func(*Ctx){ruleFresh, ruleErrL3, ruleLockPair, ruleLockOrder, ruleGetOrCreate, ruleGuard, ruleClose1, ruleLockBlock, ruleNilGuard, ruleAssert},
 		Technique:   "lockset analysis with inferred guards and caller summaries, field-write discipline, atomic-only id counters, close-once classification",
-		Explanation: "Decides: every access to a shared field named by the property's anchors holds the mutex inferred as its guard, in its own lock region or in all callers (reviewed happens-before exceptions for reads only); every other struct-field write outside constructors is under a mutex, inside sync.Once.Do or in the reviewed table; the id counters are touched only through sync/atomic; every close() is inside Once.Do, nil-test-and-clear under a mutex, a local single owner, or a reviewed shared close (R-CLOSE1); no blocking under a mutex; no unguarded optional-pointer dereference; no panicking assertion on plugin data.",
+		Explanation: "Decides: every access to a shared field named by the property's anchors holds the mutex inferred as its guard, in its own lock region or in all callers (reviewed happens-before exceptions for reads only); every other struct-field write outside constructors is under a mutex, inside sync.Once.Do or in the reviewed table; the id counters are touched only through sync/atomic; every close() is inside Once.Do, nil-test-and-clear under a mutex, a local single owner, or a reviewed shared close (R-CLOSE1); no blocking under a mutex; no unguarded optional-pointer dereference; no panicking assertion on plugin data. No nil-able result is dereferenced before its error was tested (R-ERR/L3); the chunk buffer sent on the stdio channel is allocated per iteration (R-FRESH); a reply channel is closed only after the reply was received (R-CLOSE1/reply).",
 		NotDecided:  "races the lockset abstraction cannot express (happens-before through channels beyond the tabled exceptions), races inside dependencies, uniqueness of ids beyond 'atomic add, no other writer'.",
 		Assume:      []string{"sync/atomic.AddUint32 returns distinct values to concurrent callers until wrap-around"},
 	})
